@@ -72,14 +72,34 @@ func runC33(c *core.Ctx) {
 				}
 			}
 			mb, tx := false, false
+			cntMb, cntTx := ssa.Value(fn.Params[1]), ssa.Value(fn.Params[2])
+			// the estimate may be computed by a helper of the package handed the two counters
+			if call, isCall := sum.(*ssa.Call); isCall {
+				if h := call.Call.StaticCallee(); h != nil && h.Blocks != nil && h.Pkg == fn.Pkg {
+					if rets := core.Returns(h); len(rets) == 1 && core.RetOperand(rets[0], 0) != nil {
+						sum = core.RetOperand(rets[0], 0)
+						var hm, ht ssa.Value
+						for k, p := range h.Params {
+							if k < len(call.Call.Args) && call.Call.Args[k] == cntMb {
+								hm = p
+							}
+							if k < len(call.Call.Args) && call.Call.Args[k] == cntTx {
+								ht = p
+							}
+						}
+						cntMb, cntTx = hm, ht
+						c.Analysed(fname(h))
+					}
+				}
+			}
 			if sum != nil {
 				var ls []ssa.Value
 				leaves(sum, token.ADD, &ls)
 				for _, l := range ls {
-					if isProduct(l, "miniblockSize", fn.Params[1]) {
+					if cntMb != nil && isProduct(l, "miniblockSize", cntMb) {
 						mb = true
 					}
-					if isProduct(l, "txSize", fn.Params[2]) {
+					if cntTx != nil && isProduct(l, "txSize", cntTx) {
 						tx = true
 					}
 				}
@@ -277,6 +297,50 @@ func runC33(c *core.Ctx) {
 			b, okB := core.ConstInt(call.Call.Args[3])
 			return a, b, okA && okB
 		}
+		// the arithmetic may be done by a pure helper of the package (`txSize, mbSize = model(m1, m2, ...)`): a
+		// value is read with the helper's parameters bound to the arguments it was handed
+		type bound struct {
+			v   ssa.Value
+			env map[*ssa.Parameter]*bound
+		}
+		var norm func(b bound, depth int) bound
+		norm = func(b bound, depth int) bound {
+			for ; depth < 6; depth++ {
+				if p, isP := b.v.(*ssa.Parameter); isP && b.env != nil && b.env[p] != nil {
+					b = *b.env[p]
+					continue
+				}
+				var call *ssa.Call
+				idx := 0
+				if ex, isE := b.v.(*ssa.Extract); isE {
+					call, _ = ex.Tuple.(*ssa.Call)
+					idx = ex.Index
+				} else {
+					call, _ = b.v.(*ssa.Call)
+				}
+				if call == nil {
+					return b
+				}
+				h := call.Call.StaticCallee()
+				if h == nil || h.Blocks == nil || h.Pkg != fn.Pkg || h.Name() == "generateDummyBlockbodySize" {
+					return b
+				}
+				rets := core.Returns(h)
+				if len(rets) != 1 || core.RetOperand(rets[0], idx) == nil {
+					return b
+				}
+				env := map[*ssa.Parameter]*bound{}
+				for i, p := range h.Params {
+					if i < len(call.Call.Args) {
+						a := norm(bound{call.Call.Args[i], b.env}, depth+1)
+						env[p] = &a
+					}
+				}
+				c.Analysed(fname(h))
+				b = bound{core.RetOperand(rets[0], idx), env}
+			}
+			return b
+		}
 		n := 0
 		core.Instrs(fn, func(in ssa.Instruction) {
 			st, ok := in.(*ssa.Store)
@@ -285,11 +349,13 @@ func runC33(c *core.Ctx) {
 			}
 			n++
 			good, why := false, "the stored value is not (measure - measure) / constant"
-			if q, isQ := st.Val.(*ssa.BinOp); isQ && q.Op == token.QUO {
-				if d, isD := q.X.(*ssa.BinOp); isD && d.Op == token.SUB {
-					a1, b1, ok1 := measure(d.X)
-					a2, b2, ok2 := measure(d.Y)
-					k, okK := core.ConstInt(q.Y)
+			qb := norm(bound{st.Val, nil}, 0)
+			if q, isQ := qb.v.(*ssa.BinOp); isQ && q.Op == token.QUO {
+				db := norm(bound{q.X, qb.env}, 0)
+				if d, isD := db.v.(*ssa.BinOp); isD && d.Op == token.SUB {
+					a1, b1, ok1 := measure(norm(bound{d.X, db.env}, 0).v)
+					a2, b2, ok2 := measure(norm(bound{d.Y, db.env}, 0).v)
+					k, okK := core.ConstInt(norm(bound{q.Y, qb.env}, 0).v)
 					switch {
 					case !ok1 || !ok2 || !okK:
 					case a1 != a2:
